@@ -291,10 +291,13 @@ def rbytes(rng, lo=0, hi=48):
     return bytes(rng.randrange(256) for _ in range(n))
 
 
-def mutate_file(rng, data):
+def mutate_file(rng, data, others=()):
     """returns (state name, content or None=absent)"""
     st = rng.choice(["absent", "truncated", "samelen", "shorter", "longer", "longer_tail", "intact", "intact", "empty", "random",
-                     "eol", "eol"])
+                     "eol", "eol"] + (["other_template"] * 2 if others else []))
+    if st == "other_template":
+        # exactly the bytes of ANOTHER built-in file (cp PS4_Controller.toml 0_default.toml): pristine content, wrong file
+        return st, rng.choice(others)
     if st == "absent":
         return st, None
     if st == "eol":
@@ -385,7 +388,7 @@ def gen_tree(rng, tmpl, kind):
                     tree[p] = None
             continue
         if under_factory:
-            st, c = mutate_file(rng, v)
+            st, c = mutate_file(rng, v, others=sorted({w for _q, w in tmpl if w is not None and w != v and _q.startswith(CFG + "/")}))
         elif p == CFG + "/" + BL:
             st, c = rng.choice([("absent", None), ("intact", v), ("arbitrary", rbytes(rng, 0, 80)), ("empty", b""),
                                 ("longer_tail", v + b"Bus: 0x0003, Vendor: 0x046d, Product: 0xc52b, Version: 0x0111\n")])
@@ -443,6 +446,11 @@ def handmade(tmpl):
         if v is not None and p.startswith(CFG + "/" + FACT + "/"):
             t[p] = v + b"\n# local edit that is longer than the template\n"
     out.append((t, {"kind": "present", "tag": "every factory file longer than its template"}))
+    t = dict(full)
+    ff = [(p, v) for p, v in tmpl if v is not None and p.startswith(CFG + "/" + FACT + "/")]
+    for i, (p, v) in enumerate(ff):
+        t[p] = ff[(i + 1) % len(ff)][1]
+    out.append((t, {"kind": "present", "tag": "every factory file carries the pristine content of ANOTHER factory file"}))
     return out
 
 
@@ -465,7 +473,7 @@ def stale_sibling_tree(rng, tmpl, idx):
     for j, (p, v) in enumerate(picks):
         st, c = mutate_file(rng, v)
         while st == "intact":
-            st, c = mutate_file(rng, v)
+            st, c = mutate_file(rng, v, others=sorted({w for _q, w in tmpl if w is not None and w != v and _q.startswith(CFG + "/")}))
         info["states"][p] = st
         if c is None:
             del tree[p]
